@@ -128,23 +128,32 @@ func MapCollection[K comparable, V any](m map[K]V, fn func(V) V) []V {
 func Find[K constraints.Ordered, V any](m map[K]V, fn func(V) bool) map[K]V {
 	var (
 		result = make(map[K]V)
-		keys   = make([]K, len(m))
+		keys   = make([]K, 0, len(m))
 	)
-	var i = 0
 
 	// When iterating over a map with a range loop, the order is not guaranteed
 	// to be preserved from one iteration to the next.
 	// We have to store the keys in a separate data structure like a slice
 	// which will be sorted before checking the existence of a value in the map.
 	// This way we ensure, that on duplicate values always the first one is returned.
+	// A key that is not equal to itself (a float NaN) is left out here: it has no place
+	// in the order and the entry stored under it cannot be looked up again.
 	for k := range m {
-		keys[i] = k
-		i++
+		if k == k {
+			keys = append(keys, k)
+		}
 	}
 	sort.Slice(keys, func(i, j int) bool { return keys[i] < keys[j] })
 	for _, k := range keys {
 		if fn(m[k]) {
 			result[k] = m[k]
+			return result
+		}
+	}
+	// No entry with an ordered key qualifies: an entry under an unordered key is as good as any other.
+	for k, v := range m {
+		if k != k && fn(v) {
+			result[k] = v
 			break
 		}
 	}
